@@ -448,11 +448,34 @@ fn corruption_case(seed: u64, idx: usize, thorough: bool, out: &mut Out) {
             }
             muts.push(("truncate:metadata-half".into(), orig[..n / 2].to_vec()));
         }
-        for (what, bytes) in muts {
+        for (mi, (what, bytes)) in muts.into_iter().enumerate() {
             let _ = std::fs::write(&path, &bytes);
             let target = scratch.sub("t-corrupt");
             let _ = std::fs::remove_dir_all(&target);
             let _ = copy_dir(&other, &target);
+            // every 4th mutation goes through the point-in-time route ("now": newest chain); that route
+            // is judged on the rejection clause only (a refused restore leaves the target untouched)
+            if mi % 4 == 3 {
+                let r = RestoreManager::new(&backup_dir, &target).and_then(|rm| rm.restore_point_in_time_with_options(u64::MAX / 4, &opts));
+                out.eval();
+                out.distinct(&(idx, fname.clone(), what.clone(), "pitr"));
+                if let Err(e) = r {
+                    let class = what.split('@').next().unwrap_or("").to_string();
+                    let kind = if fname.ends_with(".tar") { "archive" } else { "metadata" };
+                    if dir_fingerprint(&target) != other_fp {
+                        out.violation(
+                            format!("target-touched-before-rejection|{}|{}|point-in-time", kind, class),
+                            format!("case {}: {} of {}: the point-in-time restore was refused ({}) but the non-empty target directory had already been modified", idx, what, fname, format!("{:#}", e).chars().take(200).collect::<String>()),
+                            json!({"check":"C12","leg":"corruption","seed":seed,"case":idx,"thorough":thorough,"file":fname,"mutation":what,"route":"point-in-time"}),
+                        );
+                    } else {
+                        out.count("corruptions_rejected_target_untouched_pitr", 1);
+                    }
+                } else {
+                    out.count("pitr_restores_not_refused", 1);
+                }
+                continue;
+            }
             let r = restore_and_census(&b.cfg, &backup_dir, &target, md.id, &b.universe, &opts);
             out.eval();
             out.distinct(&(idx, fname.clone(), what.clone()));
